@@ -99,6 +99,7 @@ def check_store(ctx, spec, vcfs, work, nparts, ccs, label):
     rng = ctx.rng
     fields = list(icf.fields.values())
     chosen = [icf.fields["POS"]] + rng.sample(fields, min(len(fields), 3 if not ctx.thorough else 6))
+    chosen += [f for f in fields if f.name.endswith("NEVER") and f not in chosen]      # declared but never used
     meta = json.loads((out / "metadata.json").read_text())
     summaries = {}
     for fld in chosen:
@@ -186,6 +187,10 @@ def check_store(ctx, spec, vcfs, work, nparts, ccs, label):
             if max(nums + [0]) != s["max_number"]:
                 ctx.violate(f"max_number of {name} {s['max_number']} != longest stored vector {max(nums + [0])}", {**inp, "field": name},
                             max(nums + [0]), s["max_number"])
+        if all(v is None for v in vals) and s["max_number"] != 0:
+            # a field no record uses: no value, so the maximum number of values per record is 0
+            ctx.violate(f"summary of {name}: max_number {s['max_number']} although no record carries a value", {**inp, "field": name},
+                        0, s["max_number"])
         # writer model: chunk structure from the sizes of the appended values
         if ctx.driver_ok and fld is chosen[0]:
             sizes, k = [], 0
@@ -220,6 +225,7 @@ def run(ctx):
                                     nsamples=rng.choice([2, 3, 6]) if ragged else None,
                                     must_formats=[("Integer", "."), ("Integer", rng.choice(["2", "R", "G"]))] if ragged else ())
             ctx.count("files_with_ragged_integer_format" if ragged else "files_free")
+            spec["infos"].append({"id": "NEVER", "number": rng.choice(["1", ".", "A"]), "type": rng.choice(["Integer", "String", "Float"])})
             if not spec["records"]:
                 continue
             path = vcfgen.materialise(spec, pathlib.Path(work) / f"f{k}", rng.choice(["vcf.gz+tbi", "vcf.gz+csi"]),
